@@ -89,6 +89,7 @@ type Frame struct {
 	loopHdr  map[*ssa.BasicBlock]*loopInfo
 	curBlock *ssa.BasicBlock
 	ghostPos map[*ssa.Range]string // state var names for string range iterators
+	stack    []*ssa.Function       // functions being inlined (recursion guard)
 }
 
 type loopInfo struct {
